@@ -2,6 +2,7 @@
 from .. import rules_matlab as RM
 from .. import rules_header as RH
 from .. import rules_header2 as RH2
+from .. import rules_ids as RID
 from .. import rules_flow as RF
 
 ID = "C11"
@@ -43,5 +44,8 @@ def run(ctx, rep):
     rep.run(RM.rule_sibling_guards, ctx, rep, "H9")
     # H10: what create_object hands to MATLAB (inputs, count, class name) and where handles are looked up
     rep.run(RH2.rule_matlab_calls, ctx, rep, "H10")
+    # H12: argument values reach C++ unchanged: 64-bit integers are read exactly; property routines keep their role (= C05 I6)
+    rep.run(RH2.rule_wide_integers_read_exactly, ctx, rep, "H12")
+    rep.run(RID.rule_roles, ctx, rep, "H12")
     rep.run(RF.rule_memo_key_complete, ctx, rep, "H7", packages=("gtwrap/matlab_wrapper",), min_functions=50)
     rep.run(RF.rule_locals_defined, ctx, rep, "U1", packages=("gtwrap/matlab_wrapper",), min_functions=3)
